@@ -99,3 +99,10 @@ mod if_std {
 
 #[cfg(feature = "std")]
 pub use self::if_std::*;
+
+#[cfg(futures_intrusive_verif)]
+impl core::fmt::Debug for dyn Clock {
+    fn fmt(&self, f: &mut core::fmt::Formatter) -> core::fmt::Result {
+        f.write_str("Clock")
+    }
+}
